@@ -126,7 +126,13 @@ func searchPossibleConflict(instance *datadoghqv1alpha1.ExtendedDaemonsetSetting
 		for _, edsNode := range edsNodes {
 			selector, err2 := metav1.LabelSelectorAsSelector(&edsNode.Spec.NodeSelector)
 			if err2 != nil {
-				return "", err2
+				if edsNode.Name == instance.Name {
+					// the unusable node selector of this ExtendedDaemonsetSetting puts it in error
+					return "", err2
+				}
+				// the unusable selector of another ExtendedDaemonsetSetting selects no node: it cannot conflict
+				// with this one and must not put every ExtendedDaemonsetSetting of the namespace in error.
+				continue
 			}
 			if selector.Matches(labels.Set(node.Labels)) {
 				if edsNode.Name == instance.Name {
